@@ -20,6 +20,57 @@ type c17Case struct {
 	D      harness.Decision `json:"d"`
 	Via    string           `json:"via"` // "wire" or "client"
 	BDAT   bool             `json:"bdat,omitempty"`
+	// Limit: the server has a MaxMessageBytes that the message fits "exact"ly
+	// or with room ("above"); it has no bearing on the backend's error.
+	Limit string `json:"limit,omitempty"`
+	// Prior: an earlier transaction on the same connection with an outcome of
+	// its own: "bdat-failed-chunk" (the delivery fails while a non-LAST chunk
+	// is being handed over), "bdat-rset", "bdat-ok", "data-refused". The
+	// client API has no BDAT, so through the client only the last one is used.
+	Prior string `json:"prior,omitempty"`
+}
+
+const c17Msg = "hello\r\n" // the judged message (DATA: before the end marker)
+
+func c17Cfg(c c17Case) harness.Config {
+	cfg := harness.Config{}
+	switch c.Limit {
+	case "exact":
+		cfg.MaxMessageBytes = int64(len(c17Msg))
+	case "above":
+		cfg.MaxMessageBytes = int64(len(c17Msg)) + 10
+	}
+	return cfg
+}
+
+// c17Prior returns the wire form of the earlier transaction and the number of
+// replies it produces.
+func c17Prior(c c17Case) ([]byte, int) {
+	if c.Prior == "" || c.Source == "NewSession" {
+		return nil, 0
+	}
+	var cv conv
+	cv.cmd("MAIL FROM:<p@x>")
+	cv.cmd("RCPT TO:<q@x>")
+	switch c.Prior {
+	case "bdat-failed-chunk":
+		cv.cmd("BDAT 2")
+		cv.raw([]byte("ab"))
+		return cv.buf, 3
+	case "bdat-rset":
+		cv.cmd("BDAT 2")
+		cv.raw([]byte("ab"))
+		cv.cmd("RSET")
+		return cv.buf, 4
+	case "bdat-ok":
+		cv.cmd("BDAT 2 LAST")
+		cv.raw([]byte("ab"))
+		return cv.buf, 3
+	default: // data-refused
+		cv.cmd("DATA")
+		cv.raw([]byte("x\r\n.\r\n"))
+		return cv.buf, 4
+	}
 }
 
 func c17Lines(msg string) []string { return strings.Split(msg, "\n") }
@@ -60,6 +111,19 @@ func c17Script(c c17Case) harness.Script {
 	case "Data":
 		s.Data = []harness.DataPlan{{Read: harness.ReadPlan{Limit: -1}, Result: c.D}}
 	}
+	if _, n := c17Prior(c); n > 0 {
+		s.Mail = append([]harness.Decision{{}}, s.Mail...)
+		s.Rcpt = append([]harness.Decision{{}}, s.Rcpt...)
+		prior := harness.DataPlan{Read: harness.ReadPlan{Limit: -1}}
+		switch c.Prior {
+		case "bdat-failed-chunk":
+			prior.Read.Limit = 0
+			prior.Result = harness.Decision{Kind: "smtp", Code: 452, Enh: [3]int{4, 3, 1}, Msg: "the earlier transfer failed"}
+		case "data-refused":
+			prior.Result = harness.Decision{Kind: "smtp", Code: 550, Enh: [3]int{5, 7, 1}, Msg: "the earlier message was refused"}
+		}
+		s.Data = append([]harness.DataPlan{prior}, s.Data...)
+	}
 	return s
 }
 
@@ -96,13 +160,19 @@ func c17Classify(c c17Case) Verdict {
 	if custom {
 		v.Classes = append(v.Classes, "enhanced_code_set")
 	}
+	if c.Limit != "" {
+		v.Classes = append(v.Classes, "size_limit_"+c.Limit)
+	}
+	if c.Prior != "" && c.Source != "NewSession" {
+		v.Classes = append(v.Classes, "after_"+c.Prior)
+	}
 	v.Classes = append(v.Classes, "source_"+c.Source, "via_"+c.Via, "kind_"+c.D.Kind)
 	return v
 }
 
 func c17RunWire(c c17Case) Verdict {
 	v := c17Classify(c)
-	r := harness.NewRig(harness.Config{}, c17Script(c))
+	r := harness.NewRig(c17Cfg(c), c17Script(c))
 	w, _ := r.Dial()
 	if st := w.WaitQuiet(); st != harness.QIdle {
 		w.Finish()
@@ -111,6 +181,8 @@ func c17RunWire(c c17Case) Verdict {
 	w.Recv()
 	var cv conv
 	cv.cmd("EHLO cli")
+	priorWire, nPrior := c17Prior(c)
+	cv.raw(priorWire)
 	idx := 1 // banner, EHLO, MAIL, RCPT, (354,) final
 	if c.Source != "NewSession" {
 		cv.cmd("MAIL FROM:<s@x>")
@@ -120,17 +192,18 @@ func c17RunWire(c c17Case) Verdict {
 			idx = 3
 			if c.Source == "Data" {
 				if c.BDAT {
-					cv.cmd("BDAT 2 LAST")
-					cv.raw([]byte("hi"))
+					cv.cmd(fmt.Sprintf("BDAT %d LAST", len(c17Msg)))
+					cv.raw([]byte(c17Msg))
 					idx = 4
 				} else {
 					cv.cmd("DATA")
-					cv.raw([]byte("hi\r\n.\r\n"))
+					cv.raw([]byte(c17Msg + ".\r\n"))
 					idx = 5
 				}
 			}
 		}
 	}
+	idx += nPrior
 	w.Send(cv.buf)
 	_, fin := w.Finish()
 	if !fin {
@@ -234,7 +307,10 @@ func withClient(r *harness.Rig, lmtp bool, fn func(c *smtp.Client, w *harness.Wi
 
 func c17RunClient(c c17Case) Verdict {
 	v := c17Classify(c)
-	r := harness.NewRig(harness.Config{}, c17Script(c))
+	if c.Prior != "" {
+		c.Prior = "data-refused"
+	}
+	r := harness.NewRig(c17Cfg(c), c17Script(c))
 	var got error
 	reached := false
 	ok := withClient(r, false, func(cl *smtp.Client, w *harness.Wire) {
@@ -247,6 +323,17 @@ func c17RunClient(c c17Case) Verdict {
 		if c.Source == "NewSession" {
 			reached = true
 			return
+		}
+		if c.Prior != "" {
+			if cl.Mail("p@x", nil) != nil || cl.Rcpt("q@x", nil) != nil {
+				return
+			}
+			pw, err := cl.Data()
+			if err != nil {
+				return
+			}
+			pw.Write([]byte("x\r\n"))
+			pw.Close()
 		}
 		if err := cl.Mail("s@x", nil); err != nil {
 			if c.Source == "Mail" {
@@ -272,7 +359,7 @@ func c17RunClient(c c17Case) Verdict {
 		if err != nil {
 			return
 		}
-		wc.Write([]byte("hi\r\n"))
+		wc.Write([]byte(c17Msg))
 		got, reached = wc.Close(), true
 	})
 	if !ok {
@@ -364,12 +451,14 @@ func init() {
 
 func TestC17(t *testing.T) {
 	registerAll()
-	st.Rule = "cases = (callback NewSession|Mail|Rcpt|Data(DATA or BDAT), error = SMTPError with 4xx/5xx code, enhanced code set/unset/explicitly absent, message from a list of shapes (empty, padded, code-looking, non-ASCII, 1-3 lines, empty lines) or a plain error, observed on the wire or through the go-smtp client); non-trivial = multi-line message or an explicitly set enhanced code; distinct = hash of the whole case"
+	st.Rule = "cases = (callback NewSession|Mail|Rcpt|Data(DATA or BDAT), error = SMTPError with 4xx/5xx code, enhanced code set/unset/explicitly absent, message from a list of shapes (empty, padded, code-looking, non-ASCII, 1-3 lines, empty lines) or a plain error, observed on the wire or through the go-smtp client, optionally under a size limit the message fits exactly or loosely, optionally after an earlier transaction with another outcome on the same connection); non-trivial = multi-line message or an explicitly set enhanced code; distinct = hash of the whole case"
 	if !regress(t, "C17") {
 		return
 	}
 	c17Sub.rapidCheck(t, pickTier(4000, 30000), func(rt *rapid.T) c17Case {
 		return c17Case{Source: rapid.SampledFrom([]string{"NewSession", "Mail", "Rcpt", "Data"}).Draw(rt, "source"), D: c17GenDecision(rt),
-			Via: rapid.SampledFrom([]string{"wire", "client"}).Draw(rt, "via"), BDAT: rapid.Bool().Draw(rt, "bdat")}
+			Via: rapid.SampledFrom([]string{"wire", "client"}).Draw(rt, "via"), BDAT: rapid.Bool().Draw(rt, "bdat"),
+			Limit: rapid.SampledFrom([]string{"", "", "exact", "above"}).Draw(rt, "limit"),
+			Prior: rapid.SampledFrom([]string{"", "", "", "bdat-failed-chunk", "bdat-rset", "bdat-ok", "data-refused"}).Draw(rt, "prior")}
 	})
 }
